@@ -1095,6 +1095,9 @@ class SymExec:
                 ats = atomize(test, val)
                 if any(isinstance(b, bool) and (t, not b) in p2.conds for t, b in ats):
                     continue        # contradicts a test already passed (same substituted text)
+                if any(b is True and ((t.endswith(' is None') and (t[:-8], True) in p2.conds) or
+                                      ((t + ' is None', True) in p2.conds)) for t, b in ats if isinstance(b, bool)):
+                    continue        # "x is None" after x was found true (or the other way round): None is not true
                 if any((t == 'None is None' and b is False) or
                        (t != 'None is None' and t.endswith(' is None') and b is True and
                         (t[:-8].lstrip('-').replace('.', '', 1).isdigit() or t[0] in '\'"')) for t, b in ats):
@@ -2260,6 +2263,14 @@ def line_exprs(path, with_iter=False):
     if path.ret is not None:
         joins = [n for n in ast.walk(path.ret) if isinstance(n, ast.Call) and isinstance(n.func, ast.Attribute)
                  and n.func.attr == 'join' and len(n.args) == 1]
+        # a join without a newline inside an entry of another join puts pieces of ONE line together
+        inner = set()
+        for n in joins:
+            for x in ast.walk(n.args[0]):
+                if x is not n and isinstance(x, ast.Call) and isinstance(x.func, ast.Attribute) and x.func.attr == 'join' and \
+                   isinstance(x.func.value, ast.Constant) and isinstance(x.func.value.value, str) and '\n' not in x.func.value.value:
+                    inner.add(id(x))
+        joins = [n for n in joins if id(n) not in inner]
         for n in joins:
             a0 = n.args[0]
             if isinstance(a0, ast.List):
